@@ -115,12 +115,13 @@ def paths(tree, conds=()):
 
 
 def classify_exit(fn, bb, body):
-    """'normal' | 'error' | 'other' for an exit target of a loop: 'error' when every path from it reaches Return
-    through nothing but drops, gotos and the `?` residual conversion (the function returns Err), never re-entering the loop"""
+    """'error' | 'other' for an exit target of a loop: 'error' when nothing reachable from it re-enters the loop and the
+    only values the return place receives on the way are `Err(..)` aggregates or `?` residual conversions (so the function
+    returns an error; formatting the error message on the way is allowed)"""
     from .ir import callee_of
     seen = set()
     st = [bb]
-    saw_residual = False
+    writes = []
     while st:
         b = st.pop()
         if b in seen:
@@ -131,20 +132,18 @@ def classify_exit(fn, bb, body):
         blk = fn.blocks[b]
         t = blk["term"]
         for s in blk["stmts"]:
-            if s["s"] == "assign" and s["dst"]["l"] == 0 and s.get("rv") == "agg" and s.get("vname") == "Err":
-                saw_residual = True
+            if s["s"] == "assign" and s["dst"]["l"] == 0:
+                writes.append("err" if (not s["dst"]["p"] and s.get("rv") == "agg" and s.get("vname") == "Err") else "other")
         if t["t"] == "call":
             n = callee_of(t)
-            if "from_residual" in n or "FromResidual" in (t.get("callee") or ""):
-                saw_residual = True
-            else:
-                return "other"
-        elif t["t"] == "return":
-            continue
-        elif t["t"] not in ("goto", "drop"):
+            if t["dest"]["l"] == 0:
+                writes.append("err" if ("from_residual" in n or "FromResidual" in (t.get("callee") or "")) else "other")
+        elif t["t"] in ("yield",):
             return "other"
         st.extend(fn.succ_map()[b])
-    return "error" if saw_residual else "other"
+    if writes and all(w == "err" for w in writes):
+        return "error"
+    return "other"
 
 
 def simplify_under(t, conds):
